@@ -409,29 +409,44 @@ theorem retry_reconstruct_with_error [CommRing R] (cfg : Cfg R) {m : ℕ}
 theorem inPlace_zeroedSmall [Zero R] (cfg : Cfg R) {m : ℕ} (U : Matrix (Fin m) (Fin m) R) :
     ZeroedSmall cfg U (inPlace cfg U) := inPlace_zeroedSmall' cfg U
 
-/-- `decomposition_retry_reconstruct`: the retry loop of the code as it is (model `decompositionRetry`): the
-returned bookkeeping reconstructs `U` up to negligible entries set to 0, for every number of failed attempts. -/
+/-- `decomposition_retry_reconstruct`: the retry loop (model `decompositionRetry`, every attempt on its own copy):
+the returned bookkeeping reconstructs the requested `U` itself — for every number of failed attempts, wherever they
+were abandoned and whatever the solver returned in them. -/
 theorem decomposition_retry_reconstruct [CommRing R] (cfg : Cfg R) {m : ℕ}
     (U : Matrix (Fin m) (Fin m) R) (attempts : List (List (Sol R)))
     (hgood : ∀ sols ∈ attempts, ∀ s ∈ sols, s.1 * s.2 = 1)
     (st : St R m) (h : decompositionRetry cfg U attempts = some st) :
+    circMat m st.comps * st.u.toMatrix + st.err.toMatrix = U := by
+  obtain ⟨k, hk, hs, -⟩ := retry_returns_first_success cfg id attempts U st h
+  rw [Function.iterate_id] at hs
+  exact triangle_reconstruct_with_error cfg U _ (hgood _ (List.getElem_mem hk)) st hs
+
+/-- `decomposition_retry_history_independent`: the result of the loop is the result of its first successful attempt
+run on `U` alone: the failed attempts before it have no influence at all. -/
+theorem decomposition_retry_history_independent [CommRing R] (cfg : Cfg R) {m : ℕ}
+    (U : Matrix (Fin m) (Fin m) R) (attempts : List (List (Sol R)))
+    (st : St R m) (h : decompositionRetry cfg U attempts = some st) :
+    ∃ sols ∈ attempts, decomposeTriangle cfg U sols = some st := by
+  obtain ⟨k, hk, hs, -⟩ := retry_returns_first_success cfg id attempts U st h
+  rw [Function.iterate_id] at hs
+  exact ⟨_, List.getElem_mem hk, hs⟩
+
+/-- pinned code (`decompositionRetryInPlace`): the returned bookkeeping reconstructs `U` up to negligible entries set
+to 0 — the returned circuit was still right … -/
+theorem decomposition_retry_inplace_reconstruct [CommRing R] (cfg : Cfg R) {m : ℕ}
+    (U : Matrix (Fin m) (Fin m) R) (attempts : List (List (Sol R)))
+    (hgood : ∀ sols ∈ attempts, ∀ s ∈ sols, s.1 * s.2 = 1)
+    (st : St R m) (h : decompositionRetryInPlace cfg U attempts = some st) :
     ∃ U', ZeroedSmall cfg U U' ∧ circMat m st.comps * st.u.toMatrix + st.err.toMatrix = U' :=
   retry_reconstruct_with_error cfg (inPlace cfg) (inPlace_zeroedSmall cfg) attempts U hgood st h
 
-/-- … and exactly `U` when the only entries the threshold test calls negligible are zeros (exact zero patterns,
-or `ignore_identity_block = False` where nothing is ever written: `leadingSkipsV_ignore_off`). -/
-theorem decomposition_retry_reconstruct_exact [CommRing R] (cfg : Cfg R) {m : ℕ}
-    (U : Matrix (Fin m) (Fin m) R) (attempts : List (List (Sol R)))
-    (hgood : ∀ sols ∈ attempts, ∀ s ∈ sols, s.1 * s.2 = 1)
-    (hU : ∀ a b, cfg.small (U a b) = true → U a b = 0)
-    (st : St R m) (h : decompositionRetry cfg U attempts = some st) :
-    circMat m st.comps * st.u.toMatrix + st.err.toMatrix = U := by
-  obtain ⟨U', hz, hU'⟩ := decomposition_retry_reconstruct cfg U attempts hgood st h
-  rw [hU']
-  ext a b
-  rcases hz a b with e | ⟨e0, es⟩
-  · exact e
-  · rw [e0, hU a b es]
+/-- … but the pinned code modified the matrix of its caller: after one call on this unitary-to-first-order matrix
+(an entry of 10⁻⁷, below the precision 10⁻⁶ and far above the 10⁻⁸ of `Matrix.is_unitary`) the caller holds the
+identity.  Regression witness of the defect repaired by `fixes/C12-input-mutated.diff`. -/
+theorem pinned_code_modifies_callers_matrix :
+    inPlace exCfg (!![1, ⟨1 / 10 ^ 7, 0⟩; ⟨-1 / 10 ^ 7, 0⟩, 1] : Matrix (Fin 2) (Fin 2) GQ) ≠
+      (!![1, ⟨1 / 10 ^ 7, 0⟩; ⟨-1 / 10 ^ 7, 0⟩, 1] : Matrix (Fin 2) (Fin 2) GQ) := by
+  decide +kernel
 
 /-- a configuration in which every cell needs a solver result -/
 def exCfgAll : Cfg GQ :=
@@ -486,10 +501,6 @@ example : ((decompositionRetry exCfg exB [[], [(exB, exBinv)]]).map fun st =>
       decide (st.u.toMatrix = 1 ∧ st.err.toMatrix = 0 ∧ st.comps.length = 1)) = some true ∧
     (decomposeTriangle exCfg exB []).isNone = true := by
   refine ⟨by decide +kernel, by decide +kernel⟩
-
-/-- `inPlace` does write: a matrix with a negligible but non-zero entry above the diagonal -/
-example : inPlace exCfg (!![1, ⟨1 / 10 ^ 7, 0⟩; 0, 1] : Matrix (Fin 2) (Fin 2) GQ) = 1 := by
-  decide +kernel
 
 end PM.C12
 
